@@ -131,7 +131,8 @@ func (g *gBuilder) args(ifaceSlot bool) string {
 	a := ""
 	switch g.r.Intn(4) { // (one draw, as before: `required=false` in one case of four)
 	case 0:
-		a += ",required=false"
+		// (one time in four with a blank behind the `=`: the argument's values are then "" and "false" — still optional)
+		a += []string{",required=false", ",required=false", ",required=false", ",required= false"}[len(g.sc.nodes)%4]
 	case 3:
 		// (tenth round) the flag spelled out: a point is required unless the argument holds "false" — the bare flag and
 		// `=true` change nothing
